@@ -166,16 +166,17 @@ def typed_eq(a: Any, b: Any) -> bool:
     return a == b
 
 
-def close_tree(a: Any, b: Any, tol: float = 1e-9) -> bool:
-    """equality of plain trees with numeric tolerance (numbers compared by value)."""
+def close_tree(a: Any, b: Any, tol: float = 1e-9, floor: float = 1.0) -> bool:
+    """equality of plain trees with numeric tolerance (numbers compared by value); `floor` = 0 makes it purely relative
+    (needed for designs in very small units)."""
     if isinstance(a, bool) or isinstance(b, bool) or a is None or b is None or isinstance(a, str) or isinstance(b, str):
         return type(a) is type(b) and a == b
     if isinstance(a, (int, float)) and isinstance(b, (int, float)):
-        return abs(a - b) <= tol * max(1.0, abs(a), abs(b))
+        return abs(a - b) <= tol * max(floor, abs(a), abs(b))
     if isinstance(a, dict) and isinstance(b, dict):
-        return list(a.keys()) == list(b.keys()) and all(close_tree(a[k], b[k], tol) for k in a)
+        return list(a.keys()) == list(b.keys()) and all(close_tree(a[k], b[k], tol, floor) for k in a)
     if isinstance(a, list) and isinstance(b, list):
-        return len(a) == len(b) and all(close_tree(x, y, tol) for x, y in zip(a, b))
+        return len(a) == len(b) and all(close_tree(x, y, tol, floor) for x, y in zip(a, b))
     return False
 
 
@@ -219,7 +220,7 @@ class Batch:
             elif how == "tree":
                 ok = typed_eq(expected, got)
             else:
-                ok = close_tree(expected, got)
+                ok = close_tree(expected, got, floor=0.0 if how == "rel" else 1.0)
                 if ok and not typed_eq(expected, got):
                     ctx.drift += 1
             if not ok:
@@ -1135,6 +1136,32 @@ def capture_netlist_text(module):
         module.Netlist = real
 
 
+def gen_rectio_scaled(rng) -> dict:
+    """an allocation in small or large units (10^-6 … 10^3, dyadic 2^-20 … 2^10) whose modules are spread over at
+    least two cells; no netlist file is passed, so the emitter derives every module from the allocation alone."""
+    if rng.random() < 0.5:
+        k = rng.randint(-6, 3)
+        scale, label = 10.0 ** k, f"1e{k}"
+    else:
+        k = rng.randint(-20, 10)
+        scale, label = 2.0 ** k, f"2^{k}"
+    nx, ny = rng.randint(2, 4), rng.randint(1, 3)
+    ux, uy = rng.choice([1, 1, 0.5, 1.5, 3]) * scale, rng.choice([1, 1, 0.5, 2]) * scale
+    grid = [(i, j) for i in range(nx) for j in range(ny)]
+    cells = [[[(i + 0.5) * ux, (j + 0.5) * uy, ux, uy] + ([rng.choice(["_", "dsp"])] if rng.random() < 0.5 else []), {}]
+             for i, j in grid]
+    for m in rng.sample(MODS, rng.randint(1, 3)):
+        for idx in rng.sample(range(len(cells)), rng.randint(2, len(cells))):
+            cells[idx][1][m] = rng.choice([0.5, 0.25, 0.125, 1.0, 0.1, 0.3, rng.random(), 0.0])
+        if not any(cells[idx][1].get(m, 0) > 0 for idx in range(len(cells))):
+            cells[0][1][m] = 0.5
+    for c in cells:
+        if rng.random() < 0.3:
+            c.append(rng.choice([1, 2]))
+    return {"producer": "rectio", "alloc": {"producer": "alloc", "fam": "scaled", "kind": "tree", "cells": cells, "ops": [],
+                                            "tofile": False, "scale": label}}
+
+
 def run_rectio(ctx: Ctx, inp: dict, batch: Batch) -> None:
     """inp is an allocation input (see gen_alloc); the emitter is run on the allocation document."""
     from tools.rect import rect_io
@@ -1164,6 +1191,8 @@ def run_rectio(ctx: Ctx, inp: dict, batch: Batch) -> None:
                 Rectangle.undefine_epsilon()
         doc1 = open(fn).read()
     ctx.case("rect_io.get_netlist", ("rectio", doc0), True, sample={"producer": "rect_io.get_netlist", "alloc": doc0[:200]})
+    if inp["alloc"].get("scale") is not None:
+        ctx.count("rectio:scale:" + inp["alloc"]["scale"])
     if doc0 != doc1:
         ctx.spec_fail("rectio:pure", inp, {}, sz)
     mods: dict[str, list] = {}
@@ -1185,15 +1214,16 @@ def run_rectio(ctx: Ctx, inp: dict, batch: Batch) -> None:
                 area = tot[m["name"]]
                 cxs = sum((Fraction(v[0]) * vs_area(v) * Fraction(r) for v, r in mods[m["name"]]), Fraction(0)) / area
                 cys = sum((Fraction(v[1]) * vs_area(v) * Fraction(r) for v, r in mods[m["name"]]), Fraction(0)) / area
-                t = 1e-9 * max(1.0, float(area))
+                t = Fraction(1, 10 ** 9) * area                 # relative: designs come in units from 1e-6 to 1e3
+                ext = max(max(vs_bb(c[0])[2], vs_bb(c[0])[3]) for c in cells)
                 if m["hard"] or m["terminal"] or m["rects"] or list(m["area"]) != ["_"] or abs(Fraction(m["area"]["_"]) - area) > t:
                     ctx.spec_fail("rectio:same-area", inp, {"module": m["name"], "read": m["area"], "source": float(area)}, sz)
-                elif abs(Fraction(m["center"][0]) - cxs) > 1e-9 * max(1, abs(cxs)) or abs(Fraction(m["center"][1]) - cys) > 1e-9 * max(1, abs(cys)):
+                elif abs(Fraction(m["center"][0]) - cxs) > ext / 10 ** 9 or abs(Fraction(m["center"][1]) - cys) > ext / 10 ** 9:
                     ctx.spec_fail("rectio:same-centre", inp, {"module": m["name"], "read": m["center"], "source": [float(cxs), float(cys)]}, sz)
         if len(texts) == 2 and texts[0] != texts[1]:
             ctx.spec_fail("rectio:twice", inp, {"first": texts[0][:300], "second": texts[1][:300]}, sz)
         if texts:
-            batch.add("F rectio " + alloc_obj_wire(a), load_text(texts[0]), "rectio", inp, "tol")
+            batch.add("F rectio " + alloc_obj_wire(a), load_text(texts[0]), "rectio", inp, "rel")
             nl_read_request(batch, texts[0], inp)
         else:
             observation_missing("tools.rect.rect_io: text handed to Netlist(...)", "text-level sub-stream of get_netlist skipped")
@@ -1488,7 +1518,7 @@ def run(ctx: Ctx) -> None:
                 "netgen: EVERY topology at EVERY size up to the tier bound (no sampling); namededges: random edge lists; "
                 "floorset: synthetic numpy instances (rect/L/T/U/plus polygons in random orientation, soft/hard/pre-placed, "
                 "pins on the four borders, in the corners and inside, both terminal modes, with/without density); "
-                "rect_io.get_netlist on the allocation stream's objects; solution_to_netlist on random netlists (soft/hard/"
+                "rect_io.get_netlist on the allocation stream's objects and on allocations in units 1e-6…1e3 / 2^-20…2^10 whose modules span ≥ 2 cells (area and centre compared with exact sums at relative tolerance 1e-9); solution_to_netlist on random netlists (soft/hard/"
                 "fixed/terminal modules, hyperedges, weights) with random results; legalfloor.Model.get_netlist on models "
                 "built without solving, variables set to a rigid displacement. Non-trivial: a die with regions or refinement, "
                 "an allocation with ratios, a topology with at least one net; distinct = distinct documents")
@@ -1519,6 +1549,8 @@ def run(ctx: Ctx) -> None:
         safe(ctx, "alloc", inp, batch)
         if rng.random() < 0.7:
             safe(ctx, "rectio", {"producer": "rectio", "alloc": inp}, batch)
+    for _ in range(ctx.n(80, 1000)):
+        safe(ctx, "rectio", gen_rectio_scaled(rng), batch)
     for _ in range(ctx.n(100, 2000)):
         safe(ctx, "namededges", gen_namededges(rng), batch)
     for _ in range(ctx.n(100, 1500)):
